@@ -2,6 +2,7 @@ package main
 
 import (
 	"fmt"
+	"go/ast"
 	"os"
 )
 
@@ -11,6 +12,31 @@ func init() {
 			f := c.P.Func(os.Getenv("DMVERIF_DUMPCFG"))
 			b := c.P.BodyOf(f)
 			fmt.Println(b.G.Format(c.P.Fset))
+		}})
+	}
+	if os.Getenv("DMVERIF_DUMPDESC") != "" {
+		// prints the rename-robust description of every call and assignment of a function
+		register(&propSpec{id: "DBG", run: func(c *Ctx) {
+			f := c.P.Func(os.Getenv("DMVERIF_DUMPDESC"))
+			ast.Inspect(f.Decl.Body, func(n ast.Node) bool {
+				switch x := n.(type) {
+				case *ast.CallExpr:
+					fmt.Printf("%s CALL %s\n     = %s\n", c.P.Pos(x.Pos()), calleeID(f.Info(), x), describeExprAt(f, x))
+				case *ast.AssignStmt:
+					for i, l := range x.Lhs {
+						if i < len(x.Rhs) {
+							fmt.Printf("%s ASSIGN %s <- %s\n", c.P.Pos(x.Pos()), describeExprAt(f, l), describeExprAt(f, x.Rhs[i]))
+						}
+					}
+				case *ast.CompositeLit:
+					for _, el := range x.Elts {
+						if kv, ok := el.(*ast.KeyValueExpr); ok {
+							fmt.Printf("%s LIT %s.%s <- %s\n", c.P.Pos(x.Pos()), namedTypeID(f.Info().TypeOf(x)), exprString(kv.Key), describeExprAt(f, kv.Value))
+						}
+					}
+				}
+				return true
+			})
 		}})
 	}
 }
